@@ -205,6 +205,59 @@ def EngVal.newEngValInUnits (t : List (LisCat α)) (e : EngVal α) (u : String) 
     | .ok v => .ok ⟨v, u⟩
     | .error err => .error err
 
+/-! ### One `EngVal` object over time
+
+The Python object is mutable; its whole state is the pair `(value, uom)` (there is no other attribute). A mutating
+operation either completes or raises *before* the assignment, leaving the object as it was. -/
+
+/-- the operations applied to one `EngVal` object -/
+inductive EngOp (α : Type) where
+  /-- `e += r`, `e -= r`, `e *= r`, `e /= r` with a real number -/
+  | iaddReal (r : α) | isubReal (r : α) | imulReal (r : α) | idivReal (r : α)
+  /-- `e += o`, `e -= o` with an `EngVal`: `self.value ±= other.getInUnits(self.uom)` -/
+  | iaddEng (o : EngVal α) | isubEng (o : EngVal α)
+  /-- `e *= o`, `e /= o` with an `EngVal`: only a dimensionless one (`uom == b'    '`), else `NotImplemented` (`TypeError`) -/
+  | imulEng (o : EngVal α) | idivEng (o : EngVal α)
+  /-- `e.convert(u)` -/
+  | convert (u : String)
+  /-- `e.value = v`, `e.uom = u` -/
+  | setValue (v : α) | setUom (u : String)
+  /-- anything that only reads: `getInUnits`, `newEngValInUnits`, comparisons, binary `+ - * /` -/
+  | observe
+deriving Inhabited
+
+/-- the LIS dimensionless unit `DIMENSIONLESS = Mnem(b'    ')` -/
+def dimensionless : String := "    "
+
+/-- state of the object after one operation (a refused / unsupported operation leaves it unchanged) -/
+def EngVal.step (t : List (LisCat α)) (e : EngVal α) : EngOp α → EngVal α
+  | .iaddReal r => ⟨e.value + r, e.uom⟩
+  | .isubReal r => ⟨e.value - r, e.uom⟩
+  | .imulReal r => ⟨e.value * r, e.uom⟩
+  | .idivReal r => ⟨e.value / r, e.uom⟩
+  | .iaddEng o => match o.getInUnits t e.uom with
+    | .ok w => ⟨e.value + w, e.uom⟩
+    | .error _ => e
+  | .isubEng o => match o.getInUnits t e.uom with
+    | .ok w => ⟨e.value - w, e.uom⟩
+    | .error _ => e
+  | .imulEng o => if o.uom == dimensionless then ⟨e.value * o.value, e.uom⟩ else e
+  | .idivEng o => if o.uom == dimensionless then ⟨e.value / o.value, e.uom⟩ else e
+  | .convert u => match e.convert t u with
+    | .ok e' => e'
+    | .error _ => e
+  | .setValue v => ⟨v, e.uom⟩
+  | .setUom u => ⟨e.value, u⟩
+  | .observe => e
+
+/-- state after a whole history of operations -/
+def EngVal.run (t : List (LisCat α)) (e : EngVal α) (ops : List (EngOp α)) : EngVal α := ops.foldl (EngVal.step t) e
+
+/-- the states after each operation of a history, in order -/
+def EngVal.trace (t : List (LisCat α)) (e : EngVal α) : List (EngOp α) → List (EngVal α)
+  | [] => []
+  | op :: ops => e.step t op :: EngVal.trace t (e.step t op) ops
+
 end generic
 
 /-! ## The generated tables at the two number types -/
